@@ -1635,6 +1635,8 @@ impl Node {
             self
         });
         rc.created_in.add_node(rc.clone());
+        #[cfg(cormacrelf_incremental_rs_verif)]
+        crate::verif_audit::register(&rc);
         rc
     }
 
